@@ -43,6 +43,8 @@ def execute(case, prefix, seed):
     ch = grid.Chooser(prefix)
     g = grid.Grid(3, chooser=ch, fault_kinds=tuple(case.get("fault_kinds", ())), client_kw=dict(k=2, n=3, happy=2))
     g.sched.batch = bool(case.get("batch"))     # turn granularity, see grid.Sched.batch
+    if case.get("cpu"):
+        g.sched.cpu_events()     # thread-pool work completes as a scheduled event, see grid.Sched.cpu_events
     viol, obs = [], {}
     log = []
     counter = [0]
